@@ -127,6 +127,7 @@ func cmdCheck(args []string) int {
 	only := fs.String("only", "", "substring filter on function names (debugging; evidence is not written)")
 	dump := fs.String("dump", "", "dump queries to this directory")
 	verbose := fs.Bool("v", false, "verbose")
+	diagnose := fs.Bool("diagnose", false, "for failing conjunctions, report which conjuncts fail")
 	noEvidence := fs.Bool("no-evidence", false, "do not write the evidence file")
 	replayDir := fs.String("replays", filepath.Join(verifDir, "replays"), "directory for replay files")
 	fs.Parse(args[1:])
@@ -284,6 +285,20 @@ func cmdCheck(args []string) int {
 			continue
 		}
 		nfail++
+		if *diagnose && !ob.Structural && !ob.WantSat {
+			for i, cj := range splitConj(ob.Goal) {
+				o2 := *ob
+				o2.Goal = cj
+				r := Solve(ob.Unit.Query(&o2), SolveOpts{TimeoutMs: 5000})
+				if r.Status != "unsat" {
+					c := cj
+					if len(c) > 300 {
+						c = c[:300] + "…"
+					}
+					fmt.Printf("    diagnose: conjunct %d %s: %s\n", i+1, r.Status, c)
+				}
+			}
+		}
 		extra := map[string]interface{}{}
 		suffix := ""
 		replayed := false
@@ -379,5 +394,43 @@ func identsOf(e Expr) []string {
 		}
 	}
 	walk(e)
+	return out
+}
+
+// splitConj splits a term "(and a b c)" (recursively) into its conjuncts.
+func splitConj(t string) []string {
+	t = strings.TrimSpace(t)
+	if !strings.HasPrefix(t, "(and ") {
+		return []string{t}
+	}
+	inner := t[5 : len(t)-1]
+	var out []string
+	depth, start := 0, 0
+	inq := false
+	for i := 0; i < len(inner); i++ {
+		c := inner[i]
+		if c == '"' {
+			inq = !inq
+		}
+		if inq {
+			continue
+		}
+		switch c {
+		case '(':
+			depth++
+		case ')':
+			depth--
+		case ' ':
+			if depth == 0 {
+				if i > start {
+					out = append(out, splitConj(inner[start:i])...)
+				}
+				start = i + 1
+			}
+		}
+	}
+	if start < len(inner) {
+		out = append(out, splitConj(inner[start:])...)
+	}
 	return out
 }
